@@ -878,8 +878,15 @@ func (ex *Exec) checkPost(st *State, fr *Frame, res []Term, pos token.Pos) {
 			ex.aborted = fmt.Sprintf("%s:%d: ghostset: %v", g.File, g.Line, err)
 			return
 		}
-		val, err := env.Eval(g.Expr)
+		// the right-hand side may name locals of the function (their values at this return);
+		// on a return that precedes their declaration the ghost is left unchanged
+		genv := *env
+		genv.frame = fr
+		val, err := genv.Eval(g.Expr)
 		if err != nil {
+			if strings.Contains(err.Error(), "unknown identifier") {
+				continue
+			}
 			ex.aborted = fmt.Sprintf("%s:%d: ghostset: %v", g.File, g.Line, err)
 			return
 		}
